@@ -405,6 +405,9 @@ BOUNDARY_NUMERALS = ["2147483648", "4294967295", "4294967296", "9223372036854775
                      "-9223372036854775809", "18446744073709551616", "-1", "-0", "007", "1.", ".5", "1e5", "1e400",
                      "9" * 400, "9" * 400 + ".0", "0." + "0" * 400 + "1", "-" + "9" * 25, "1.5.2", "--1", "٣"]
 ODD_CHARS = ["é", "\U0001F680", "\u00a0", "\u0000", "ß", "İ", "ǅ", "\u200b", "\ufeff", "\u212a", "\u0131", "\u2028", "\\", "'", "`", "\x0b", "\x7f"]
+# characters whose upper- or lower-case mapping has another UTF-8 length (byte offsets found in a case-folded
+# copy of a command do not fit the original): 2->3, 2->6, 2->3, 2->1, 2->1, 3->2, 2->3 (lower), 2->2, 3->2, 2->2
+CASEMAP_CHARS = ["\u0149", "\u0390", "\u01f0", "\u0131", "\u017f", "\ufb01", "\u0130", "\u00df", "\u1e9e", "\u01c5"]
 KEYWORDS = ["QUERY", "FIND", "WHERE", "AND", "OR", "NOT", "IN", "LIMIT", "OFFSET", "ORDER", "BY", "FOR", "SINCE", "USING", "TIME",
             "RETURN", "LINKED", "PER", "COUNT", "UNIQUE", "TOTAL", "AVG", "MIN", "MAX", "FOLLOWED", "PRECEDED", "STORE", "PAYLOAD",
             "DEFINE", "FIELDS", "AS", "REPLAY", "REMEMBER", "SHOW", "BATCH", "PLOT", "OF", "FILTER", "TOP", "VS", "BREAKDOWN", "OVER",
@@ -462,6 +465,29 @@ def gen_mutations(rnd, bases, scale):
             out.append(("non-ascii", b[:i] + ch + b[i:], False))
         i = rnd.randrange(len(b))
         out.append(("non-ascii", b[:i] + rnd.choice(ODD_CHARS) + b[i + 1:], False))
+    # case-map: every command family (first word), a few bases each; the character goes into the first string
+    # literal (or right after the first word if there is none), once and three times over, and before the last blank
+    fams = {}
+    for b in bases:
+        fams.setdefault(b.split(" ", 1)[0].upper(), []).append(b)
+    for fam in sorted(fams):
+        fb = fams[fam]
+        for b in [fb[i] for i in sorted(rnd.sample(range(len(fb)), min(3, len(fb))))]:
+            q = b.find('"')
+            at = q + 1 if q >= 0 else (b.find(" ") if " " in b else len(b))
+            last = b.rfind(" ")
+            for ch in CASEMAP_CHARS:
+                out.append(("case-map", b[:at] + ch + b[at:], False))
+                out.append(("case-map", b[:at] + ch * 3 + b[at:], False))
+                if last > 0:
+                    out.append(("case-map", b[:last] + ch + b[last:], False))
+    for ch in CASEMAP_CHARS:
+        out.append(("case-map", f'REMEMBER QUERY ev WHERE s = "{ch}" AS m2', False))
+        out.append(("case-map", f'REMEMBER QUERY ev WHERE s = "{ch}{ch}" AS m3', False))
+        out.append(("case-map", f'QUERY ev WHERE s = "{ch}" LIMIT 1', False))
+        out.append(("case-map", f'STORE ev FOR "{ch}" PAYLOAD {{"k":1}}', False))
+        out.append(("case-map", f'SHOW {ch}', False))
+        out.append(("case-map", f'DEFINE t{ch} FIELDS {{ k: "int" }}', False))
     for b in pick(scale * 4):
         words = list(_re.finditer(r"[A-Za-z_][A-Za-z0-9_\-]*", b))
         for m in rnd.sample(words, min(4, len(words))):
